@@ -123,6 +123,11 @@ def points(c, Tg, P_pa):
     for a, b in c['tp']:
         T = Tg[0] + a * max(Tg[-1] - Tg[0], 100.0)
         lp = math.log10(P_pa[0]) + b * max(math.log10(P_pa[-1]) - math.log10(P_pa[0]), 1.0)
+        if T < Tg[0] and abs(lp - math.log10(P_pa[0])) < 1e-6:
+            # the documented zero corner (T < Tmin and P < Pmin) makes the function discontinuous at P = Pmin; a unit
+            # round trip (kPa -> bar -> Pa) moves the loaded Pmin by an ulp, so a query within an ulp of it may fall on
+            # either side.  The corner itself is judged in C04; here the query is kept clearly inside.
+            lp = math.log10(P_pa[0]) + 1e-3
         pts.append((max(T, 10.0), 10.0 ** lp))
     return pts
 
